@@ -36,6 +36,9 @@ var sharedTypes = []string{
 	"server.peer", "server.fsmAddressFamily",
 }
 
+// the self-locking store inside the table types (rule T)
+const storeType = "routingtable.RoutingTable"
+
 var fatals []string
 
 func fatal(pos token.Pos, format string, a ...interface{}) {
@@ -124,6 +127,10 @@ type site struct {
 	field   *types.Var
 	write   bool
 	pos     token.Pos
+	// contents pseudo-access (rule T): callee decides read/write in summarize
+	contentsOf  *fn
+	contentsRcv *types.Named
+	handsOut    bool
 }
 
 type fn struct {
@@ -164,6 +171,7 @@ type analysis struct {
 	concBusy   map[interface{}]bool
 	selectComm map[ast.Stmt]bool // comm statements of selects: value = select has default
 	atomicFld  map[*types.Var]bool
+	contents   map[*types.Named]*types.Var // pseudo-field <Type>.contents
 	verbose    bool
 }
 
@@ -242,7 +250,7 @@ func load(repo string) (*analysis, error) {
 		fieldOwner: map[*types.Var]*types.Named{}, lockIDs: map[string]int{}, shared: map[*types.Named]bool{},
 		fieldAsg: map[*types.Var][]asg{}, registered: map[*types.Named]map[*types.Named]bool{},
 		regExt: map[*types.Named][]string{}, ctorMemo: map[*fn]int{}, concBusy: map[interface{}]bool{},
-		selectComm: map[ast.Stmt]bool{}, atomicFld: map[*types.Var]bool{}}
+		selectComm: map[ast.Stmt]bool{}, atomicFld: map[*types.Var]bool{}, contents: map[*types.Named]*types.Var{}}
 	sort.Slice(p2, func(i, j int) bool { return p2[i].PkgPath < p2[j].PkgPath })
 	for _, p := range p2 {
 		if len(p.Errors) > 0 {
@@ -1288,7 +1296,11 @@ func siteKey(s site) string {
 	if s.field != nil {
 		fld = fmt.Sprintf("%p", s.field)
 	}
-	return fmt.Sprintf("%d|%s|%d|%s|%s|%s|%v|%d", s.kind, strings.Join(ks, ","), s.lock, strings.Join(cs, ","), s.desc, fld, s.write, s.pos)
+	co := ""
+	if s.contentsOf != nil {
+		co = s.contentsOf.name
+	}
+	return fmt.Sprintf("%d|%s|%d|%s|%s|%s|%v|%d|%s", s.kind, strings.Join(ks, ","), s.lock, strings.Join(cs, ","), s.desc, fld, s.write, s.pos, co)
 }
 
 func (w *walker) record(s site) {
@@ -1704,6 +1716,54 @@ func (w *walker) call(c *ast.CallExpr, deferred bool) {
 	if len(callees) > 0 {
 		w.record(site{kind: sCall, held: w.st.held.clone(), callees: callees, desc: desc, pos: c.Pos()})
 	}
+	w.contentsAccess(c, callees)
+}
+
+// contentsAccess (rule T): a method call on a field that holds another shared, self-locking object
+// (x.rt.Dump(), x.rt.AddPath(...)) is an access to the pseudo-field <Owner>.contents of the owner.
+func (w *walker) contentsAccess(c *ast.CallExpr, callees []*fn) {
+	if len(callees) != 1 || callees[0].recvNamed == nil || namedName(callees[0].recvNamed) != storeType {
+		return
+	}
+	sel, ok := ast.Unparen(c.Fun).(*ast.SelectorExpr)
+	if !ok {
+		return
+	}
+	fs, ok := ast.Unparen(sel.X).(*ast.SelectorExpr)
+	if !ok {
+		return
+	}
+	info := w.f.pkg.TypesInfo
+	v, ok := info.Uses[fs.Sel].(*types.Var)
+	if !ok || !v.IsField() {
+		return
+	}
+	owner := w.a.fieldOwner[v]
+	if owner == nil || !w.a.shared[owner] || owner == callees[0].recvNamed {
+		return
+	}
+	if w.a.prePublication(w.f, fs) {
+		return
+	}
+	pf := w.a.contents[owner]
+	if pf == nil {
+		pf = types.NewField(token.NoPos, owner.Obj().Pkg(), "contents", types.Typ[types.Int], false)
+		w.a.contents[owner] = pf
+		w.a.fieldOwner[pf] = owner
+	}
+	handsOut := false
+	if g := callees[0]; g.obj != nil {
+		res := g.obj.Type().(*types.Signature).Results()
+		for i := 0; i < res.Len(); i++ {
+			if _, basic := res.At(i).Type().Underlying().(*types.Basic); !basic {
+				if !types.Identical(res.At(i).Type(), types.Universe.Lookup("error").Type()) {
+					handsOut = true
+				}
+			}
+		}
+	}
+	w.record(site{kind: sAccess, held: w.st.held.clone(), field: pf, pos: c.Pos(),
+		contentsOf: callees[0], contentsRcv: callees[0].recvNamed, handsOut: handsOut})
 }
 
 // ---------------------------------------------------------------- main
